@@ -159,8 +159,9 @@ impl PairCfg {
         c.stun_timeout = Duration::from_millis(400);
         c.nomination_timeout = Duration::from_millis(400);
         if self.fast_timers {
-            c.ice_disconnect_threshold = Duration::from_millis(600);
-            c.ice_connection_timeout = Duration::from_millis(1500);
+            // the keepalive period of the ICE agent is 1 s: anything below ~2 s flaps on a healthy link
+            c.ice_disconnect_threshold = Duration::from_millis(2500);
+            c.ice_connection_timeout = Duration::from_millis(4000);
             c.ice_disconnect_grace = Duration::from_millis(300);
             c.sctp_heartbeat_interval = Duration::from_millis(200);
             c.sctp_rto_initial = Duration::from_millis(200);
